@@ -63,6 +63,12 @@ def make_case(index, rng, tier):
     cfg = rng.choice(CFGS)
     if cfg.get("proxy_protocol") and rng.randrange(2):
         msgs.insert(0, b"PROXY TCP4 1.2.3.4 5.6.7.8 11 22\r\n")
+        if rng.randrange(2):
+            # ... and once more in front of a later request of the same connection, where it is not a PROXY header but a malformed
+            # request line (well-formed requests before it, so that the parser gets that far)
+            msgs = [msgs[0]] + httpgen.gen_stream(rng, 3, hostile=False)
+            msgs.insert(rng.randrange(2, len(msgs) + 1), rng.choice([b"PROXY TCP4 9.9.9.9 5.6.7.8 33 44\r\n", b"PROXY UNKNOWN\r\n",
+                                                                     b"PROXY TCP6 ::1 ::1 33 44\r\n"]))
     total = sum(len(m) for m in msgs)
     eof = rng.randrange(1, total) if rng.randrange(6) == 0 and total > 1 else None
     out = {"msgs": [b2j(m) for m in msgs], "cfg": cfg, "floor": False, "eof_at": eof,
@@ -138,6 +144,17 @@ def run(case, choices):
     for i, o in enumerate(obs):
         if i >= len(ref):
             # gunicorn yielded a request whose head the reference did not accept
+            if rterm[0] == "REJECT" and len(obs) > i + 1:
+                # whatever is made of a head a strict reading rejects (some are handed over and the connection closed: listed findings),
+                # the bytes BEHIND it have no defined framing: nothing further may be read from them as a request
+                import re as _re
+                codings = [c.strip().lower() for v in _re.findall(rb"(?im)^transfer-encoding[ \t]*:(.*)$", data[(ref[i - 1]["end"] if i > 0 else 0):o["head_end"]])
+                           for c in v.decode("latin-1").split(",") if c.strip()]
+                ident = rterm[3] == "te-without-final-chunked" and codings and all(c == "identity" for c in codings)
+                res.violate("C01:request-after-rejected-head:" + rterm[3] + (":identity" if ident else ""),
+                            "request %d (%s %r) was handed over although a strict reading rejects its head (%s), and the connection was not "
+                            "ended there: %d further request(s) were parsed from the bytes behind it (next: %s %r); %s"
+                            % (i, o["method"], o["uri"][:40], rterm[3], len(obs) - i - 1, obs[i + 1]["method"], obs[i + 1]["uri"][:40], ctx()))
             if rterm[0] == "REJECT":
                 res.violate("C01:accepted:" + rterm[3],
                             "request %d (%s %r) was handed over although a strict reading rejects its head: %s; %s"
